@@ -35,7 +35,7 @@ def platform_replay(seed_dists=None):
         db = DB()
         db.genomes = w.genomes
         d = np.array(row, dtype=np.float32)
-        for N in (1, 2, n):
+        for N in (range(1, n + 1) if n <= 17 else (1, 2, 3, n // 2, n - 1, n)):
             item = gq.get_result_item(db, QueryParams(report_closest=N), d, QueryInput('q'))
             got = [w.gi(m.genome) for m in item.closest_genomes]
             want = sorted(range(n), key=lambda j: (row[j], j))[:min(N, n)]
